@@ -48,7 +48,8 @@ Setup ==
   /\ pc = -2
   /\ \E md \in Modes :
      IF md = "short" THEN \E n \in {0, msg.S - 1} : \E p \in Partitions(n, 2) : Start(p, md, HonestSL(msg), -1)
-     ELSE \E p \in Partitions(FlatLen(msg), IF md = "honest" THEN MaxParts ELSE MaxPartsH) :
+     \* (slices are judged after the last claim, whatever the partition: one element is enough there)
+     ELSE \E p \in Partitions(FlatLen(msg), IF md = "honest" THEN MaxParts ELSE IF md = "hostileSL" THEN 1 ELSE MaxPartsH) :
         IF md = "altered" THEN msg.ck /\ \E a \in 0..(FlatLen(msg) - 1) : Start(p, md, HonestSL(msg), a)
         ELSE IF md = "hostileSL"
         THEN (HasMap(msg) /\ \E sl \in HostileSLs(HonestSL(msg), HonestW(msg)[MapIdx(msg) + 1]) : Start(p, md, sl, -1))
